@@ -55,6 +55,38 @@ ASSUMPTIONS = [
 ]
 
 MARK = "TRACER-LEAK"
+
+
+class StrProxy:
+    """A lazy-string style proxy: not a str, forwards attribute access to the wrapped string."""
+
+    def __init__(self, s):
+        self._s = s
+
+    def __getattr__(self, name):
+        if name.startswith("_"):
+            raise AttributeError(name)
+        return getattr(self._s, name)
+
+    def __getitem__(self, k):
+        raise KeyError(k)
+
+    def __str__(self):
+        return self._s
+
+
+class FmtHolder:
+    """Data object that stores bound format methods (taken outside the sandbox, by the application)."""
+
+    def __init__(self, f, fx):
+        self.fmt = f.format
+        self.mfmt = Markup(f).format
+        self.fmtx = fx.format_map
+
+    def __getitem__(self, k):
+        if k in ("fmt", "mfmt", "fmtx"):
+            return getattr(self, k)
+        raise KeyError(k)
 TOUCHED: list = []
 
 
@@ -408,6 +440,14 @@ FORMS = [
     ("fmt_ctx_markup", "fmt", "{{ rec(mfmt.format(@O)) }}", "[]"),
     ("fmt_ctx_map", "fmt", "{{ rec(fmtx.format_map({'x': @O})) }}", "[]"),
     ("fmt_ctx_stored", "fmt", "{% set f0 = mfmt.format %}{{ rec(f0(@O)) }}", "[]"),
+    # the format method reached through objects that are not str instances (a lazy-string proxy, a stored bound method)
+    ("fmt_proxy", "fmt", "{{ rec(pfmt.format(@O)) }}", "[]"),
+    ("fmt_proxy_item", "fmt", "{{ rec(pfmt['format'](@O)) }}", "[]"),
+    ("fmt_proxy_attr", "fmt", "{{ rec((pfmt|attr('format'))(@O)) }}", "[]"),
+    ("fmt_proxy_map", "fmt", "{{ rec(pfmtx.format_map({'x': @O})) }}", "[]"),
+    ("fmt_holder", "fmt", "{{ rec(hold.fmt(@O)) }}", "[]"),
+    ("fmt_holder_markup", "fmt", "{{ rec(hold.mfmt(@O)) }}", "[]"),
+    ("fmt_holder_map", "fmt", "{{ rec(hold.fmtx({'x': @O})) }}", "[]"),
     ("fmt_print", "fmtprint", "{{ '[{0.@N}]'.format(@O) }}", "[]"),
     # ---- attribute arguments of aggregating filters (tracer-capable objects only)
     ("sort", "agg", "{{ rec(@X|sort(attribute='@N')) }}"),
@@ -628,7 +668,8 @@ def run_case(envcls, asyncm, okey, name, form):
                 if isinstance(t, Exception):
                     raise t
                 ctx = dict(rec=rec, n=name, mn=Markup(name), one=1, fmt="[{0.%s}]" % name, mfmt=Markup("[{0.%s}]" % name),
-                           fmtx="[{x.%s}]" % name)
+                           fmtx="[{x.%s}]" % name, pfmt=StrProxy("[{0.%s}]" % name), pfmtx=StrProxy("[{x.%s}]" % name),
+                           hold=FmtHolder("[{0.%s}]" % name, "[{x.%s}]" % name))
                 if made:
                     ctx["o"] = made[0]
                     ctx["xs"] = [made[0], made[1]]
@@ -802,6 +843,43 @@ def _chunks(n, size):
     return [(lo, min(n, lo + step)) for lo in range(0, n, step)]
 
 
+# ---------------------------------------------------------------- from-import of private names (compiled to a raw getattr on the module)
+FI_NAMES = ["_body_stream", "__class__", "__dict__", "__init__", "__module__", "_priv", "_pv", "__doc__", "_TemplateModule__x"]
+FI_FORMS = ["{% from 'fimod' import @N %}{{ rec(@N) }}", "{% from 'fimod' import @N as pub %}{{ rec(pub) }}", "{% from 'fimod' import pubm, @N as pub2 %}{{ rec(pub2) }}",
+            "{% from 'fimod' import @N as pub with context %}{{ rec(pub) }}", "{% macro w() %}{% from 'fimod' import @N as q %}{{ rec(q) }}{% endmacro %}{{ w() }}"]
+
+
+def fromimport_ok(n: int, f: int, asyncm: bool) -> bool:
+    """
+    pre: 0 <= n < len(FI_NAMES) and 0 <= f < len(FI_FORMS)
+    post: _
+    """
+    from vfw.core import pickb
+    from jinja2.sandbox import SandboxedEnvironment, ImmutableSandboxedEnvironment
+    name = FI_NAMES[pick(n, len(FI_NAMES))]
+    form = FI_FORMS[pick(f, len(FI_FORMS))]
+    am = pickb(asyncm)
+    with NoTracing():
+        for cls in (SandboxedEnvironment, ImmutableSandboxedEnvironment):
+            env = cls(loader=DictLoader({"fimod": "{% macro _priv() %}P{% endmacro %}{% macro pubm() %}M{% endmacro %}{% set _pv = 1 %}{% set pubv = 2 %}"}), enable_async=am)
+            got = []
+            try:
+                t = env.from_string(form.replace("@N", name))
+            except TemplateSyntaxError:
+                continue        # rejected when the template is compiled
+            try:
+                if am:
+                    drive(t.render_async(rec=lambda v: got.append(v) or ""))
+                else:
+                    t.render(rec=lambda v: got.append(v) or "")
+            except (SecurityError, UndefinedError):
+                continue
+            for v in got:
+                if not isinstance(v, Undefined):
+                    return False        # a private / internal attribute of the module object reached the template
+        return True
+
+
 def conditions(tier, seed):
     th = tier == "thorough"
     to = 300 if th else 60
@@ -846,4 +924,7 @@ def conditions(tier, seed):
                             timeout=to * (1 if th else 1), witnesses=w,
                             bounds=f"{hi - lo} (object, unsafe name) pairs over objects {objs} x forms {fc} x sync/async; "
                                    f"compiled and rendered natively per path"))
+    out.append(Cond("from-import of private / internal names", "fromimport_ok", mode="B", param={}, timeout=60,
+                    witnesses=[[0, 1, False], [1, 1, True], [5, 0, False], [3, 3, False], [8, 4, True]],
+                    bounds=f"{len(FI_NAMES)} underscore / dunder names of a template module x {len(FI_FORMS)} import forms (plain, aliased, mixed, with context, inside a macro) x sync/async x both sandbox classes: rejected at compile time, SecurityError, or an undefined value"))
     return out
